@@ -22,7 +22,7 @@ func (w *StrongestCriteriaOrderingResolver) Spec_OrderCriteria(
 	_ *model.BiasProps,
 	listener *model.BiasListener,
 ) *model.Criteria {
-	ascending := (*listener).RankCriteriaAscending(params).Criteria()
+	ascending := (*listener).RankCriteriaAscending(params).Spec_Criteria()
 	totalCount := len(*ascending)
 	descending := make(model.Criteria, totalCount)
 	for i, a := range *ascending {
